@@ -61,6 +61,80 @@ def split2(s):
     return s / 2, s / 2
 
 
+FNMOD_SRC = """
+def scale(x):
+    return x * 1000.
+
+
+def unscale(x):
+    return x / 1000.
+
+
+def pre(x, y):
+    return x + 1, y * 2
+
+
+def make(k):
+    def scale(x):
+        return x * k
+
+    def unscale(x):
+        return x / k
+
+    def pre(x, y):
+        return x + k / 1000., y * 2
+    return {'scale': scale, 'unscale': unscale, 'pre': pre}
+"""
+FNMOD_OTHER = """
+def scale(x):
+    return x * 10.
+
+
+def unscale(x):
+    return x / 10.
+
+
+def pre(x, y):
+    return x + 5, y
+"""
+CUR_FNS = {}
+
+
+def setup_fn_module(spec):
+    """functions named 'm:<name>' in a spec live in a throw-away module registered in sys.modules.
+    fnmode plain:   the functions in use are the module-level ones;
+           rebound: the names are re-defined (other bodies) after the session was built (finish_fn_module);
+           closure: the functions in use are closures with the same __name__ / __module__ as module-level functions with other bodies"""
+    import types
+    mode = spec.get('fnmode')
+    CUR_FNS.clear()
+    if not mode:
+        return
+    name = 'glueverif_fn_' + hashlib.sha1(json.dumps(spec, sort_keys=True, default=str).encode()).hexdigest()[:12]
+    mod = types.ModuleType(name)
+    sys.modules[name] = mod
+    exec(FNMOD_SRC, mod.__dict__)
+    if mode == 'closure':
+        CUR_FNS.update(mod.make(1000.))
+        exec(FNMOD_OTHER, mod.__dict__)
+    else:
+        CUR_FNS.update({k: mod.__dict__[k] for k in ('scale', 'unscale', 'pre')})
+    CUR_FNS['__module__'] = mod
+
+
+def finish_fn_module(spec):
+    if spec.get('fnmode') == 'rebound':
+        exec(FNMOD_OTHER, CUR_FNS['__module__'].__dict__)
+
+
+def fn(name):
+    if name is None:
+        return None
+    if name.startswith('m:'):
+        return CUR_FNS[name[2:]]
+    return FUNCS[name]
+
+
 FUNCS = {'double': double, 'halve': halve, 'plus_one': plus_one, 'minus_one': minus_one, 'add2': add2, 'split2': split2}
 OPS = {'gt': operator.gt, 'ge': operator.ge, 'lt': operator.lt, 'le': operator.le, 'eq': operator.eq, 'ne': operator.ne}
 AOPS = {'add': operator.add, 'sub': operator.sub, 'mul': operator.mul, 'truediv': operator.truediv}
@@ -77,6 +151,8 @@ def values_for(kind, seed, shape):
         return v
     if kind == 'int':
         return rs.randint(-4, 9, shape)
+    if kind == 'key':
+        return rs.randint(0, 4, shape)
     if kind == 'cat':
         return np.array(['a', 'b', 'c', 'dd'])[rs.randint(0, 4, shape)]
     if kind == 'datetime':
@@ -172,6 +248,8 @@ def make_pretransform(name):
     from glue.core import roi_pretransforms as P
     if name is None:
         return None
+    if name.startswith('m:'):
+        return fn(name)
     if name == 'radian':
         return P.RadianTransform(coords=['x'])
     if name == 'radian_xy':
@@ -262,7 +340,7 @@ def apply_style(style, spec):
 def write_file(ds, path_base):
     """write the main numeric / categorical components of a dataset spec to a file; returns the path"""
     shape = tuple(ds['shape'])
-    comps = [c for c in ds['comps'] if c['kind'] in ('float', 'int', 'cat', 'floatnan')]
+    comps = [c for c in ds['comps'] if c['kind'] in ('float', 'int', 'cat', 'floatnan', 'key')]
     if ds['file'] == 'csv':
         path = path_base + '.csv'
         cols = [values_for(c['kind'], c['seed'], shape) for c in comps]
@@ -295,6 +373,7 @@ def realise(spec, scratch):
     from glue.core.coordinates import IdentityCoordinates, AffineCoordinates
     from glue.core.component_link import ComponentLink
     from glue.core import link_helpers as LH
+    setup_fn_module(spec)
     datasets = []
     sdir = os.path.join(scratch, 'files_' + hashlib.sha1(json.dumps(spec, sort_keys=True, default=str).encode()).hexdigest()[:12])
     for ds in spec['datasets']:
@@ -353,10 +432,10 @@ def realise(spec, scratch):
                 if k in ('float', 'int', 'cat'):
                     d.add_component(values_for(k, c['seed'], shape), c['name'])
                 continue
-            if ds.get('file') and k in ('float', 'int', 'cat', 'floatnan'):
+            if ds.get('file') and k in ('float', 'int', 'cat', 'floatnan', 'key'):
                 if ds['file'] != 'fits' or c['name'] == d.main_components[0].label:
                     continue
-            if k in ('float', 'int', 'floatnan'):
+            if k in ('float', 'int', 'floatnan', 'key'):
                 comp = Component(values_for(k, c['seed'], shape), units=c.get('units'))
                 d.add_component(comp, c['name'])
             elif k == 'cat':
@@ -375,7 +454,7 @@ def realise(spec, scratch):
                 d.add_component(arith(datasets, idx, c['expr']), c['name'])
             elif k == 'func':
                 from glue.core.component_id import ComponentID
-                link = ComponentLink([att(datasets, (idx, a)) for a in c['from']], ComponentID(c['name'], parent=d), using=FUNCS[c['fn']])
+                link = ComponentLink([att(datasets, (idx, a)) for a in c['from']], ComponentID(c['name'], parent=d), using=fn(c['fn']))
                 d.add_component_link(link)
             elif k == 'parsed':
                 from glue.core.parse import ParsedCommand, ParsedComponentLink
@@ -395,11 +474,11 @@ def realise(spec, scratch):
         if k == 'LinkSame':
             dc.add_link(LH.LinkSame(a, b))
         elif k == 'LinkTwoWay':
-            dc.add_link(LH.LinkTwoWay(a, b, FUNCS[ln['f']], FUNCS[ln['g']]))
+            dc.add_link(LH.LinkTwoWay(a, b, fn(ln['f']), fn(ln['g'])))
         elif k == 'LinkSameWithUnits':
             dc.add_link(LH.LinkSameWithUnits(a, b))
         elif k == 'ComponentLink':
-            dc.add_link(ComponentLink([a], b, using=FUNCS[ln['f']], inverse=FUNCS[ln['g']] if ln.get('g') else None))
+            dc.add_link(ComponentLink([a], b, using=fn(ln['f']), inverse=fn(ln.get('g'))))
         elif k == 'ComponentLink2':
             a2 = att(datasets, ln['a2'])
             dc.add_link(ComponentLink([a, a2], b, using=FUNCS['add2']))
@@ -451,6 +530,7 @@ def realise(spec, scratch):
     for sb in spec.get('subsets', []):
         grp = dc.new_subset_group(sb['label'], make_state(datasets, sb['state']))
         apply_style(grp.style, sb.get('style'))
+    finish_fn_module(spec)
     return dc, datasets
 
 
@@ -547,8 +627,9 @@ def observe(dc, aspects=None):
         if 'uuid' in A:
             o['uuid'] = d.uuid
         if 'joins' in A:
-            o['joins'] = sorted([other.label, [c.label for c in v[0]] if isinstance(v[0], tuple) else 'NOT-A-TUPLE',
-                                 [c.label for c in v[1]] if isinstance(v[1], tuple) else 'NOT-A-TUPLE'] for other, v in d._key_joins.items())
+            # in the order of the dictionary: a selection is translated through the first join that can reach it
+            o['joins'] = [[other.label, [c.label for c in v[0]] if isinstance(v[0], tuple) else 'NOT-A-TUPLE',
+                           [c.label for c in v[1]] if isinstance(v[1], tuple) else 'NOT-A-TUPLE'] for other, v in d._key_joins.items()]
         if 'masks' in A:
             subs = []
             for s in d.subsets:
@@ -855,6 +936,42 @@ def random_style(rng):
     return st
 
 
+def join_spec(order, joins):
+    """order: permutation of the dataset numbers (position in the collection); joins: [(i, col_i, j, col_j)] in creation order, dataset numbers before permutation"""
+    n = len(order)
+    dsets = []
+    for num in order:
+        dsets.append({'label': 'j%d' % num, 'shape': [7], 'comps': [{'name': 'x', 'kind': 'float', 'seed': 100 + num}, {'name': 'k', 'kind': 'key', 'seed': 200 + num},
+                                                                    {'name': 'm', 'kind': 'key', 'seed': 300 + num}, {'name': 'p', 'kind': 'key', 'seed': 400 + num}]})
+    pos = {num: k for k, num in enumerate(order)}
+    links = [{'kind': 'join_on_key', 'a': [pos[i], ci], 'b': [pos[j], cj]} for i, ci, j, cj in joins]
+    subsets = [{'label': 'sel%d' % num, 'state': {'cls': 'RangeSubsetState', 'd': pos[num], 'att': 'x', 'lo': 2, 'hi': 6}} for num in range(n)]
+    return {'include_data': True, 'datasets': dsets, 'links': links, 'subsets': subsets}
+
+
+def join_cases():
+    out = []
+    tri = [(0, 'k', 1, 'k'), (0, 'm', 2, 'm'), (2, 'p', 1, 'p')]
+    for order in itertools.permutations(range(3)):
+        for jo in itertools.permutations(range(3)):
+            joins = [tri[q] for q in jo]
+            # alternate which side calls join_on_key
+            joins = [(j, cj, i, ci) if (k + sum(order[:1])) % 2 else (i, ci, j, cj) for k, (i, ci, j, cj) in enumerate(joins)]
+            out.append(('joins:3:%s:%s' % (''.join(map(str, order)), ''.join(map(str, jo))), join_spec(order, joins)))
+    quad = [(0, 'k', 1, 'k'), (1, 'm', 2, 'm'), (2, 'p', 3, 'p'), (3, 'k', 0, 'm'), (0, 'p', 2, 'k')]
+    import random as _random
+    rng = _random.Random(4)
+    orders = list(itertools.permutations(range(4)))
+    for order in orders[::2]:
+        jo = list(range(5))
+        rng.shuffle(jo)
+        out.append(('joins:4:%s:%s' % (''.join(map(str, order)), ''.join(map(str, jo))), join_spec(order, [quad[q] for q in jo])))
+    # chain and star without a cycle, a join next to a link
+    out.append(('joins:chain', join_spec((2, 0, 1), [(0, 'k', 1, 'k'), (1, 'm', 2, 'm')])))
+    out.append(('joins:star', join_spec((1, 2, 0, 3), [(0, 'k', 1, 'k'), (0, 'm', 2, 'm'), (0, 'p', 3, 'p')])))
+    return out
+
+
 def base_spec(include_data=True, files=False):
     t = table_ds('t', n=8, seed=11, file='csv' if files else None)
     im = image_ds('im', (3, 4), seed=21, file='fits' if files else None)
@@ -965,6 +1082,27 @@ def catalogue(tables):
                   'links': [], 'subsets': [{'label': 's', 'state': {'cls': 'RangeSubsetState', 'd': 0, 'att': 'x', 'lo': 2, 'hi': 6}},
                                            {'label': 'w', 'state': {'cls': 'RangeSubsetState', 'd': 0, 'att': 'world0' if coords else 'pix0', 'lo': 0, 'hi': 12}}]}
             cases.append(('coords:%s:%dd' % (coords, len(shape)), sp))
+    # functions by reference: plain module-level functions, names re-defined after use, closures shadowing a module-level name
+    for mode in ('plain', 'rebound', 'closure'):
+        for use in ('derived', 'link', 'twoway', 'pretransform'):
+            sp = two()
+            sp['fnmode'] = mode
+            if use == 'derived':
+                sp['datasets'][0]['comps'].append({'name': 'q', 'kind': 'func', 'from': ['x'], 'fn': 'm:scale'})
+                sp['links'] = [{'kind': 'LinkSame', 'a': [0, 'x'], 'b': [1, 'x']}]
+                sp['subsets'] = [{'label': 's', 'state': {'cls': 'InequalitySubsetState', 'd': 0, 'left': 'q', 'right': 3500, 'op': 'gt'}}]
+            elif use == 'link':
+                sp['links'] = [{'kind': 'ComponentLink', 'a': [0, 'x'], 'b': [1, 'y'], 'f': 'm:scale', 'g': 'm:unscale'}]
+                sp['subsets'] = [{'label': 's', 'state': {'cls': 'InequalitySubsetState', 'd': 1, 'left': 'y', 'right': 3500, 'op': 'gt'}}]
+            elif use == 'twoway':
+                sp['links'] = [{'kind': 'LinkTwoWay', 'a': [0, 'x'], 'b': [1, 'y'], 'f': 'm:scale', 'g': 'm:unscale'}]
+                sp['subsets'] = [{'label': 's', 'state': {'cls': 'InequalitySubsetState', 'd': 0, 'left': 'x', 'right': 3, 'op': 'gt'}}]
+            else:
+                sp['subsets'] = [{'label': 's', 'state': {'cls': 'RoiSubsetState', 'd': 0, 'x': 'x', 'y': 'y', 'roi': ROI_SPECS['RectangularROI'][0], 'pre': 'm:pre'}}]
+            cases.append(('fn:%s:%s' % (mode, use), sp))
+    # key joins over 3 and 4 datasets, cycles included: every order of the collection x every order of making the joins (3 datasets),
+    # a sample of them for 4; selections on every dataset, so that datasets with two joins are reached through both
+    cases.extend(join_cases())
     # styles: every attribute at its boundary / falsy values, on a dataset and on a subset group at once, with and without data
     for k, (nm, st) in enumerate(style_cases()):
         inc = k % 3 != 0
